@@ -15,7 +15,7 @@ def run_search(genprop, fields=S.ALL_FIELDS, what="matches differ from the model
 
 
 PROPS = {}
-for pid in ["C09", "C13"]:
+for pid in ["C09"]:
     PROPS[pid] = dict(lean_modules=[], theorems=[], run=run_search(pid),
                       manifest=dict(text="under construction", note="under construction",
                                     technique="Lean 4 model + differential correspondence"))
